@@ -76,6 +76,26 @@ fn main() {
             let focus = arg(&args, "--focus").unwrap_or("C08".into());
             ops_syntax::syntax(&mut rep, &focus, n, seed, thorough)
         }
+        "irof" => {
+            // one line per input line `<flags> <hex code points>`: the canonical IR the real parser builds, or `err`
+            let text = std::fs::read_to_string(&aux).expect("input file");
+            let mut w = std::io::BufWriter::new(std::fs::File::create(format!("{}/irof.txt", out)).expect("irof.txt"));
+            use std::io::Write;
+            for line in text.lines() {
+                let mut it = line.split(' ');
+                let fl = it.next().unwrap_or("-");
+                let pat = it.next().unwrap_or("-");
+                let cps: Vec<u32> = if pat == "-" { vec![] } else { pat.split('.').filter_map(|h| u32::from_str_radix(h, 16).ok()).collect() };
+                let fs = if fl == "-" { "" } else { fl };
+                let r = util::guarded(|| regress::verif::dump_ir_canon(cps.iter().copied(), util::make_flags(fs, true)));
+                match r {
+                    Ok(Ok(ir)) => writeln!(w, "ok {}", ir.replace(' ', "~")).unwrap(),
+                    Ok(Err(_)) => writeln!(w, "err").unwrap(),
+                    Err(_) => writeln!(w, "panic").unwrap(),
+                }
+            }
+            return;
+        }
         "big" => {
             ops_syntax::big(&args[2], args[3].parse().unwrap());
             return;
